@@ -148,8 +148,11 @@ theorem tie_error_handler_slots :
 /-- destruct_object of a vital object: slot pushed and both names recorded BEFORE the name is blanked (the model's `.vital`
     case builds `m1` — slot + recorded names — from `m`, and blanks in `m2`); fix_object_names restores both (`runSlotHandler`) -/
 theorem tie_vital_destruct_order :
-    Gen.C05.destructRecordsNamesBeforeBlanking = true ∧ Gen.C05.fixObjectNamesRestoresBoth = true ∧
-    Gen.C05.destructManualBackouts = 2 := by decide
+    Gen.C05.destructRecordsNamesBeforeBlanking = true ∧ Gen.C05.fixObjectNamesRestoresBoth = true := by decide
+
+/-- no handler of a T_ERROR_HANDLER slot calls back into LPC or raises an error: running one while the stack is unwound
+    cannot start another unwinding (the model's `runSlotHandler` is a plain state update) -/
+theorem tie_error_handlers_are_leaves : Gen.C05.errorHandlersThatCallBack = [] := by decide
 
 /-- the model records the names the object had BEFORE blanking: whatever the reload does, the slot restores them -/
 theorem vital_records_before_blanking (b : Bool) (body : Prog) (m : M)
